@@ -159,6 +159,13 @@ func runArchive(r *rt.Run, t *rt.Trace) {
 			sources[i] = []bItem{{name: fmt.Sprintf("m%d", i), gtags: g, dims: []string{"src"}, tmax: 1010,
 				pts: []sItem{{tags: g, fields: map[string]any{"f": float64(i) + 0.5}, t: 1001}, {tags: g, fields: map[string]any{"f": 2.5}, t: 1004 + i%3}}}}
 		}
+		// a source that recorded nothing (a query that returned no data in the window) keeps its place
+		if n >= 2 {
+			sources[n/2] = []bItem{}
+		}
+		if n >= 11 {
+			sources[0] = []bItem{}
+		}
 		for _, rec := range []bool{true, false} {
 			outs, errS := replayBatchArchive(dir, sources, rec, 4000)
 			if len(outs) != n {
